@@ -822,6 +822,60 @@ func TestC03(t *testing.T) {
 		m, _, _, _ := judge(gap, false)
 		rec.ReportKnown("FS24", m != "")
 	}
+	// systematic enumeration (every run, shard 0): all if/else shapes inside a loop — each branch one of nine behaviours, the
+	// resource declared inside or before the loop, and a destroy behind the if / behind the loop or none
+	if evid.Shard() == 0 {
+		kinds := map[string][]Stmt{
+			"fallthrough": nil, "consume": {{K: "destroy", V: "r"}},
+			"consume+return": {{K: "destroy", V: "r"}, {K: "return"}}, "consume+break": {{K: "destroy", V: "r"}, {K: "break"}},
+			"consume+continue": {{K: "destroy", V: "r"}, {K: "continue"}},
+			"break": {{K: "break"}}, "continue": {{K: "continue"}}, "return": {{K: "return"}}, "panic": {{K: "panic"}},
+		}
+		names := []string{"fallthrough", "consume", "consume+return", "consume+break", "consume+continue", "break", "continue", "return", "panic"}
+		for _, loop := range []string{"while", "for"} {
+			for _, decl := range []string{"inside", "outside"} {
+				for _, tail := range []string{"none", "after-if", "after-loop"} {
+					if tail == "after-loop" && decl == "inside" {
+						continue
+					}
+					for _, a := range names {
+						for _, b := range names {
+							ifs := Stmt{K: "if", E: true, A: cloneStmts(kinds[a]), B: cloneStmts(kinds[b])}
+							body := []Stmt{ifs}
+							if tail == "after-if" {
+								body = append(body, Stmt{K: "destroy", V: "r"})
+							}
+							newR := Stmt{K: "new", V: "r", T: "R", Let: true}
+							var prog []Stmt
+							if decl == "inside" {
+								prog = []Stmt{{K: loop, A: append([]Stmt{newR}, body...)}}
+							} else {
+								prog = []Stmt{newR, {K: loop, A: body}}
+								if tail == "after-loop" {
+									prog = append(prog, Stmt{K: "destroy", V: "r"})
+								}
+							}
+							p := &Program{Body: prog}
+							msg, cell, _, _ := judge(p, knownGap)
+							if cell == "outside" {
+								rec.Class("enum/outside-fragment")
+								continue
+							}
+							rec.CaseH(true, evid.Hash("enum", p.Print()))
+							rec.Class("enum/" + cell)
+							if strings.Contains(cell, "-FS") {
+								rec.Excluded(cell[strings.Index(cell, "-FS")+1:])
+							}
+							if msg != "" {
+								rec.Violation(t, c03Case{Mode: "enum", Defect: loop + "/" + decl + "/" + tail + "/" + a + "|" + b, Program: p, Source: strings.TrimPrefix(p.Print(), prelude)}, "%s", msg)
+							}
+						}
+					}
+				}
+			}
+		}
+		rec.RequireClasses(t, "enum/good/accepted", "enum/bad/rejected")
+	}
 	r := evid.Rand(3)
 	N := evid.N(20_000, 100_000)
 	table := map[string]int{}
